@@ -55,10 +55,38 @@ func baseKey(v ssa.Value) string {
 			if p := ParamOf(x); p != nil {
 				return fmt.Sprintf("%p", p)
 			}
+			switch cell := x.X.(type) {
+			case *ssa.FreeVar:
+				// a captured variable that is never stored to inside the closure
+				stored := false
+				for _, r := range *cell.Referrers() {
+					if st, ok := r.(*ssa.Store); ok && st.Addr == ssa.Value(cell) {
+						stored = true
+					}
+				}
+				if !stored {
+					return fmt.Sprintf("*%p", cell)
+				}
+			case *ssa.Global:
+				return "*" + cell.Name()
+			case *ssa.Alloc:
+				n := 0
+				for _, r := range *cell.Referrers() {
+					if st, ok := r.(*ssa.Store); ok && st.Addr == ssa.Value(cell) {
+						n++
+					}
+				}
+				if n == 1 {
+					return fmt.Sprintf("*%p", cell)
+				}
+			}
 			return fmt.Sprintf("(*%p)", x)
 		}
 	case *ssa.IndexAddr:
 		return baseKey(x.X) + fmt.Sprintf("[%p]", x.Index)
+	case *ssa.TypeAssert:
+		// asserting the same interface value to the same type yields the same pointer
+		return "assert(" + baseKey(x.X) + ")"
 	}
 	return fmt.Sprintf("%p", v)
 }
